@@ -182,6 +182,7 @@ inductive Action
   | forget (i : Nat)                    -- forgetter i wakes up (timer or ctx.Done) and runs countFail(-1)
   | newIter (r : Nat)                   -- a loop iteration of a handler with dynamic upstreams begins (its own pool holder)
   | activeCheck (c : CfgId) (i : Nat) (pass : Bool)  -- one active health check of handler c on its i-th upstream completes
+  | dialInfoFails (r : Nat)             -- the selected upstream's dial address cannot be filled in for this request
   | fallback (r : Nat)                  -- the dynamic source failed: this iteration uses the handler's static upstreams
   | tick
   deriving Repr
@@ -259,6 +260,18 @@ def stepFallback (s : State) (r : Nat) : Option State :=
     match q.pc with
     | .start =>
       if q.par.dynamic then some { s with reqs := s.reqs.set r { q with holder := none } } else none
+    | _ => none
+  | none => none
+
+/-- reverseproxy.go:538-544 — an upstream was selected but `fillDialInfo` fails (its dial address
+    is a request placeholder that expands to something that is not one dialable socket): the
+    iteration returns `true, err` at once.  No Host counter has been touched: `countRequest(1)` is
+    the first statement of `reverseProxy`, which is never entered. -/
+def stepDialInfoFails (s : State) (r : Nat) : Option State :=
+  match s.reqs[r]? with
+  | some q =>
+    match q.pc with
+    | .start => some { s with reqs := s.reqs.set r { q with pc := .done } }
     | _ => none
   | none => none
 
@@ -451,6 +464,7 @@ def step (s : State) : Action → Option State
   | .forget i => stepForget s i
   | .newIter r => stepNewIter s r
   | .fallback r => stepFallback s r
+  | .dialInfoFails r => stepDialInfoFails s r
   | .activeCheck c i pass => stepActive s c i pass
   | .tick => some { s with now := s.now + 1 }
 
